@@ -4,6 +4,8 @@ use serde_json::{json, Value};
 use speclib::ast::{Action, Expr, Test};
 use speclib::grammar::{self, Tok};
 use speclib::report::{finish, panic_site, par_cases, Acc, Ctx, Finish, Tier, Violation};
+#[allow(unused_imports)]
+use serde_json::json as _json;
 use speclib::words::{expr_words, ParenStyle};
 
 const WORDS11: [&str; 11] = ["(", ")", "!", ",", "-a", "-and", "-o", "-or", "-true", "-name x", "-print"];
@@ -186,6 +188,62 @@ fn self_check(alpha: &[&str], max_len: usize, accepted_by_len: &[u64]) -> Result
     Ok((checked, counts[1..=max_len].iter().sum::<u128>() as u64))
 }
 
+/// Sequences in which an option word stands where a primary may stand (find's grammar lists
+/// options among the primaries): judged by the text-level reference, for which a leading run of
+/// options is removed and any other option reads as -true.
+fn option_sequences(max_len: usize) -> Acc {
+    const WORDS12: [&str; 12] = ["(", ")", "!", ",", "-a", "-and", "-o", "-or", "-true", "-name x", "-print", "-depth"];
+    let mut total = Acc::new();
+    for len in 1..=max_len {
+        let n = 12u64.pow(len as u32);
+        total = total.merge(par_cases(n, |mut idx, acc| {
+            let mut w = Vec::with_capacity(len);
+            let mut has_opt = false;
+            for _ in 0..len {
+                let k = (idx % 12) as usize;
+                has_opt |= k == 11;
+                w.push(WORDS12[k]);
+                idx /= 12;
+            }
+            if !has_opt {
+                return; // covered by the main sweep
+            }
+            w.reverse();
+            let input = w.join(" ");
+            acc.states += 1;
+            acc.transitions += 1;
+            acc.validated += 1;
+            let wit = || json!({"kind": "option-words", "input": input});
+            match crate::textcmp::compare(&input) {
+                crate::textcmp::Verdict::AgreeAccept(t) => {
+                    acc.count("accepted_with_option", 1);
+                    acc.outcome(&t);
+                }
+                crate::textcmp::Verdict::AgreeReject(..) => acc.count("rejected_with_option", 1),
+                crate::textcmp::Verdict::Skip(r) => acc.skip(r),
+                crate::textcmp::Verdict::Panic(p) => acc.violate(Violation::new(format!("C01:panic:{}", panic_site(&p)), format!("parse({input:?}) panicked: {p}"), wit())),
+                crate::textcmp::Verdict::AcceptsRejected { tree, .. } => acc.violate(Violation::new(
+                    "C01:accepts-non-sentence:with-option-word",
+                    format!("parse({input:?}) = {} but with options read as -true (leading run removed) the input is not a sentence", tree.show()),
+                    wit(),
+                )),
+                crate::textcmp::Verdict::RejectsAccepted { err, want } => acc.violate(Violation::new(
+                    "C01:rejects-sentence:with-option-word",
+                    format!("parse({input:?}) failed ({err}); with options read as -true the tree is {}", want.show()),
+                    wit(),
+                )),
+                crate::textcmp::Verdict::WrongTree { got, want } => acc.violate(Violation::new(
+                    "C01:wrong-tree:with-option-word",
+                    format!("parse({input:?}) = {}; expected {}", got.show(), want.show()),
+                    wit(),
+                )),
+                crate::textcmp::Verdict::WrongOptions { .. } => {}
+            }
+        }));
+    }
+    total
+}
+
 /// Long sentences: n primaries joined by one operator spelling (or by juxtaposition), and the
 /// same under k-fold negation / parentheses; the reference tree is the left fold.
 fn long_sentences() -> Acc {
@@ -245,7 +303,8 @@ pub fn run(ctx: &Ctx) -> i32 {
         }
     }
     acc = acc.merge(long_sentences());
-    let mut bound = format!("all word sequences of length 1..{n11} over {} words; chains of 2..20 and of 31..600 primaries (around every power of two) under each operator spelling and juxtaposition, within 4 KiB; 1..64-fold negation and parentheses", WORDS11.len());
+    acc = acc.merge(option_sequences(ctx.tier.pick(5, 6)));
+    let mut bound = format!("all word sequences of length 1..{n11} over {} words; all sequences up to length {} containing the option word -depth (text-level reference); chains of 2..20 and of 31..600 primaries (around every power of two) under each operator spelling and juxtaposition, within 4 KiB; 1..64-fold negation and parentheses", WORDS11.len(), ctx.tier.pick(5, 6));
     if ctx.tier == Tier::Thorough {
         let a9 = sweep(&WORDS9, 9, 9);
         acc = acc.merge(a9);
@@ -270,6 +329,15 @@ pub fn run(ctx: &Ctx) -> i32 {
 }
 
 pub fn replay(w: &Value) -> Vec<Violation> {
+    if w["kind"] == "option-words" {
+        // re-run the single input through the same comparison
+        let input = w["input"].as_str().unwrap_or("").to_string();
+        let mut out = vec![];
+        if !matches!(crate::textcmp::compare(&input), crate::textcmp::Verdict::AgreeAccept(_) | crate::textcmp::Verdict::AgreeReject(..) | crate::textcmp::Verdict::Skip(_) | crate::textcmp::Verdict::WrongOptions { .. }) {
+            out.push(Violation::new("C01:option-word-sequence", format!("parse({input:?}) disagrees with the reference"), w.clone()));
+        }
+        return out;
+    }
     let words: Vec<String> = w["words"].as_array().map(|a| a.iter().filter_map(|x| x.as_str().map(String::from)).collect()).unwrap_or_default();
     let refs: Vec<&str> = words.iter().map(|s| s.as_str()).collect();
     let mut acc = Acc::new();
